@@ -6,6 +6,7 @@
      op 4  GammaInc grid  : a cnt { x  status  GammaInc(a,x)  GammaIncComp(a,x) }*
      op 5  Beta           : cnt { a b Beta(a,b) }*
      op 6  scan in x      : fn a b lo hi n status cnt { xlo xhi F(xlo) F(xhi) }*    fn 1 BetaInc(.,a,b), 2 GammaInc(a,.), 3 GammaIncComp(a,.)
+     op 7  Beta laws      : cnt { a b a1 Beta(a,b) Beta(a1,b) Beta(b,a) }*          a1 = float(a+1)
    The pairs of op 6 are located by the harness's discontinuity hunt (harness/hb_scan.go) on n cells of
    [lo,hi]; the first pair is the consecutive grid pair with the smallest increment (decrement for fn 3).
    Only the reported pairs are judged: xlo < xhi must give F(xlo) <= F(xhi) + 1e-12 (>= for fn 3), values in [0,1].
@@ -230,6 +231,21 @@ Fixpoint check_scan (decreasing : bool) (pts : list (xreal * xreal * xreal * xre
   | _ :: _ => Some (i, 2%Z)
   end.
 
+(* ---------- op 7: Beta(a,b) = Beta(b,a) and (a+b) Beta(a+1,b) = a Beta(a,b) ---------- *)
+(* Gamma(a+1) = a Gamma(a) applied to Beta = Gamma Gamma / Gamma; holds for ALL real a, b > 0, so it reaches the
+   parameters the closed forms (half-integers) do not.  codes: 1 not finite / not positive, 2 symmetry, 3 recurrence *)
+Fixpoint check_beta_laws (es : list (xreal * xreal * xreal * xreal * xreal * xreal)) (i : Z) (tag : Z) : Z * option (Z * Z) :=
+  match es with
+  | [] => (tag, None)
+  | (XFin a, XFin b, XFin a1, XFin b0, XFin b1, XFin bs) :: t =>
+      if negb (Qltb 0 b0 && Qltb 0 b1 && Qltb 0 bs) then (tag, Some (i, 1%Z))
+      else if negb (within (tol_law * b0) b0 bs) then (tag, Some (i, 2%Z))
+      else if Qeqb a1 (a + 1) then
+        (if within (tol_beta_rel * a * b0) (a * b0) ((a + b) * b1) then check_beta_laws t (i + 1)%Z (Z.lor tag 1) else (tag, Some (i, 3%Z)))
+      else check_beta_laws t (i + 1)%Z (Z.lor tag 2)
+  | _ :: _ => (tag, Some (i, 1%Z))
+  end.
+
 (* ---------- the line ---------- *)
 Local Open Scope Z_scope.
 Inductive c08case :=
@@ -238,7 +254,8 @@ Inductive c08case :=
 | KBeta (a b : xreal) (pts : list (xreal * xreal * Z * xreal * xreal))
 | KGamma (a : xreal) (pts : list (xreal * Z * xreal * xreal))
 | KBetaFn (es : list (xreal * xreal * xreal))
-| KScan (fn : Z) (a b lo hi : Q) (n status : Z) (pts : list (xreal * xreal * xreal * xreal)).
+| KScan (fn : Z) (a b lo hi : Q) (n status : Z) (pts : list (xreal * xreal * xreal * xreal))
+| KBetaLaws (es : list (xreal * xreal * xreal * xreal * xreal * xreal)).
 
 Definition p_line : parser c08case :=
   do id <- pZ; if negb (id =? 8) then (fun _ => None) else
@@ -253,6 +270,8 @@ Definition p_line : parser c08case :=
   else if op =? 6 then (do fn <- pZ; do a <- pQ; do b <- pQ; do lo <- pQ; do hi <- pQ; do n <- pZ; do st <- pZ;
                         do pts <- plist (do u <- pX; do v <- pX; do fu <- pX; do fv <- pX; pret (u, v, fu, fv));
                         pend (KScan fn a b lo hi n st pts))
+  else if op =? 7 then (do es <- plist (do a <- pX; do b <- pX; do a1 <- pX; do b0 <- pX; do b1 <- pX; do bs <- pX; pret (a, b, a1, b0, b1, bs));
+                        pend (KBetaLaws es))
   else (fun _ => None).
 
 (* tags: 64*op + branch bits.
@@ -261,6 +280,7 @@ Definition p_line : parser c08case :=
    op 4: +2 series, +4 continued fraction, +8 NaN domain, +16 x = 0
    op 5: +1 exact (half-)integer comparison, +2 law-only
    op 6 (384): +1 BetaInc / +2 GammaInc / +3 GammaIncComp scan in x, +4 a candidate jump was located and judged
+   op 7 (448): +1 recurrence (a+b) Beta(a+1,b) = a Beta(a,b) checked, +2 symmetry only
    tag 0 is never produced by a well-formed case except an empty list *)
 Definition check_C08 (line : list Z) : list Z :=
   match p_line line with
@@ -307,4 +327,9 @@ Definition check_C08 (line : list Z) : list Z :=
                   | None => verdict V_OK tag (-1) []
                   end
            end
+  | Some (KBetaLaws es, _) =>
+      match check_beta_laws es 0 0 with
+      | (tag, None) => verdict V_OK (448 + tag) (-1) []
+      | (tag, Some (i, c)) => verdict V_MISMATCH (448 + tag) i [c]
+      end
   end.
